@@ -42,6 +42,7 @@ type Solver struct {
 	dead    bool
 	// query recording for cross-solver check
 	Record   bool
+	RecordMax int
 	Recorded []RecordedQuery
 	buf      strings.Builder
 	ndefs    int
@@ -442,8 +443,22 @@ func (s *Solver) Check(conj []*T, want []*T) (Result, *Model) {
 	default:
 		s.NUnk++
 	}
-	if s.Record {
-		s.Recorded = append(s.Recorded, RecordedQuery{Script: s.standalone(conj), Res: res})
+	// keep a small sample of decided queries as standalone scripts (for the cross-solver diff): the
+	// first RecordMax/2 sat and unsat ones that have at least two conjuncts
+	if s.Record && (res == Sat || res == Unsat) && len(conj) >= 2 {
+		max := s.RecordMax
+		if max == 0 {
+			max = 4
+		}
+		n := 0
+		for _, q := range s.Recorded {
+			if q.Res == res {
+				n++
+			}
+		}
+		if n < max/2 {
+			s.Recorded = append(s.Recorded, RecordedQuery{Script: s.standalone(conj), Res: res})
+		}
 	}
 	return res, model
 }
